@@ -141,15 +141,26 @@ def grep_forbidden(pid=None):
 
 
 def lean_build(pid):
-    """lake build of the property's theorems and the driver.  Returns dict."""
+    """lake build of the property's theorems, then of the driver.  Returns dict.
+
+    A failure of the property's own module is a broken proof obligation; a failure that only
+    concerns the driver (some other model does not compile) is a machinery error."""
     target = f'DesperProofs.Props.{pid}'
     with BuildLock():
         t0 = time.time()
-        rc, out = _run(['lake', 'build', target, 'driver'], LEAN)
+        rc, out = _run(['lake', 'build', target], LEAN)
+        if rc != 0 and 'clang' in out and 'frontend command failed' in out:
+            rc, out = _run(['lake', 'build', target], LEAN)       # transient compiler crash: retry once
         res = {'ok': rc == 0, 'log': out, 'wall_s': round(time.time() - t0, 2),
                'cmd': f'cd lean && lake build {target} driver'}
+        rc2, out2 = _run(['lake', 'build', 'driver'], LEAN)
+        if rc2 != 0:
+            rc2, out2 = _run(['lake', 'build', 'driver'], LEAN)
+        res['wall_s'] = round(time.time() - t0, 2)
     if rc != 0:
         res['failed_theorems'] = failed_theorems(pid, out)
+    if rc2 != 0:
+        raise MachineryError('driver build failed:\n' + out2[-3000:])
     return res
 
 
@@ -400,8 +411,6 @@ def run_check(pid, tier, seed):
     names = theorem_names(pid)
     cov['obligations'] = len(names)
     if not b['ok']:
-        if not DRIVER.exists() or 'Driver' in ''.join(b.get('failed_theorems', [])):
-            raise MachineryError('driver build failed:\n' + b['log'][-3000:])
         ctx.broken.append({'kind': 'proof', 'theorems': b.get('failed_theorems', []),
                            'log_tail': b['log'][-3000:]})
         cov['discharged'] = 0
